@@ -367,13 +367,97 @@ def rule_L6(ctx):
     comp = [n for n in own_nodes(it) if isinstance(n, ast.DictComp)]
     ok = len(comp) == 1 and norm(comp[0].key) == "k.name" and norm(comp[0].value) == "getattr(self, k.name)" and norm(comp[0].generators[0].iter) == "fields(self)" \
         and len(comp[0].generators[0].ifs) == 1 and norm(comp[0].generators[0].ifs[0]).startswith("self.is_public_field(k.name")
+    if not ok and not comp:
+        # the same dict filled by a loop: per iteration path, a public field is stored under its own name with its own value,
+        # a hidden one is not stored
+        from .streams import _walk as _wi
+        from .util import atomic_facts as _afi
+        icfg = ctx.cfg(it, "L6")
+        floops = [f for f in own_nodes(it) if isinstance(f, ast.For) and norm(f.iter) == "fields(self)" and isinstance(f.target, ast.Name)]
+        ok = len(floops) == 1
+        if ok:
+            v = floops[0].target.id
+            n_pub = n_hid = 0
+            for kind, path, edge in icfg.iteration_paths(icfg.loop_of(floops[0])):
+                if kind == "exit" and len(path) == 1:
+                    continue
+                if kind != "back":
+                    ok = False
+                    continue
+                pr = _wi(ctx, it, icfg, path)
+                pub = next((t_ for c_, t_ in _afi(pr) if re.fullmatch(r"truthy\(self\.is_public_field\(" + re.escape(v) + r"~?\.name,.+\)\)", c_)), None)
+                stores = [(evaluator(ctx, it, s_.env).ev(s_.ast.targets[0].slice).key().replace("~", ""), evaluator(ctx, it, s_.env).ev(s_.ast.value).key().replace("~", ""))
+                          for s_ in pr.steps if s_.kind == "stmt" and isinstance(s_.ast, ast.Assign) and len(s_.ast.targets) == 1 and isinstance(s_.ast.targets[0], ast.Subscript)]
+                if pub is True:
+                    n_pub += 1
+                    ok = ok and stores == [(f"{v}.name", f"getattr(self,{v}.name)")]
+                elif pub is False:
+                    n_hid += 1
+                    ok = ok and not stores
+                else:
+                    ok = False
+            ok = ok and n_pub >= 1 and n_hid >= 1
     ctx.ob("L6", it, "itemize shows every public dataclass field under its own name", ok, "", inst="itemize-fields")
     pubf = ctx.fn("smpl_extract/elements.py", "LeafElement.is_public_field", "L6")
-    prs = run_paths(ctx, pubf, rule="L6")
-    falses = [p for p in prs if p.end == "return" and p.ret == C(0)]
-    trues = [p for p in prs if p.end == "return" and p.ret == C(1)]
-    ok = len(trues) >= 1 and len(falses) == 3
-    ctx.ob("L6", pubf, "a field is hidden only when its name is empty, starts with `_`, or is in the exclusion list", ok, f"{len(falses)} hiding paths", inst="is_public_field")
+    # decided as a truth table over (name empty, starts with '_', no exclusion list, name in the list): every returning path is
+    # replayed under each assignment (short-circuit order respected: name[0] of an empty name, `in None` never evaluated)
+    from .sem import path_tests as _ptq, bool_eval as _beq, emptiness_by as _ebq
+    nm, ex = pubf.args.args[1].arg, pubf.args.args[2].arg
+    prs = [p for p in run_paths(ctx, pubf, rule="L6") if p.end == "return"]
+    import itertools as _it
+    ok, det = bool(prs), ""
+    for EMPTY, UNDER, NOLIST, INLIST in _it.product((True, False), repeat=4):
+        def atom(node, EMPTY=EMPTY, UNDER=UNDER, NOLIST=NOLIST, INLIST=INLIST):
+            e_ = _ebq(node, lambda x: isinstance(x, ast.Name) and x.id == nm)
+            if e_ is not None:
+                return EMPTY == e_
+            t_ = norm(node)
+            if t_ in (f"{nm}[0] == '_'", f"{nm}.startswith('_')", f"{nm}[:1] == '_'"):
+                return "undef" if (EMPTY and t_.startswith(f"{nm}[0]")) else (UNDER and not EMPTY)
+            if t_ in (f"{nm}[0] != '_'",):
+                return "undef" if EMPTY else not UNDER
+            if t_ == f"{ex} is not None":
+                return not NOLIST
+            if t_ == f"{ex} is None":
+                return NOLIST
+            if t_ == f"{nm} in {ex}":
+                return "undef" if NOLIST else INLIST
+            if t_ == f"{nm} not in {ex}":
+                return "undef" if NOLIST else not INLIST
+            return None
+        taken = []
+        for p in prs:
+            good = True
+            for tst, tk in _ptq(p):
+                v_ = _beq(tst, atom)
+                if v_ == "undef" or v_ is None:
+                    good = None
+                    break
+                if v_ != tk:
+                    good = False
+                    break
+            if good is None:
+                ok, det = False, f"a test is evaluated that is undefined or not understood for empty={EMPTY}, underscore={UNDER}, nolist={NOLIST}"
+            elif good:
+                taken.append(p)
+        if not ok:
+            break
+        want_hidden = EMPTY or UNDER or ((not NOLIST) and INLIST)
+        if len(taken) != 1:
+            ok, det = False, f"{len(taken)} paths apply for empty={EMPTY}, underscore={UNDER}, nolist={NOLIST}, inlist={INLIST}"
+            break
+        rk = taken[0].ret.key() if taken[0].ret is not None else None
+        rv = True if rk == "1" else (False if rk == "0" else None)
+        if rv is None:
+            # a returned boolean expression: evaluate it the same way
+            from .sem import path_return_ast as _pra2
+            e2 = _pra2(taken[0])
+            v2 = _beq(e2, atom) if e2 is not None else None
+            rv = v2 if isinstance(v2, bool) else None
+        if rv is None or rv == want_hidden:
+            ok, det = False, f"name empty={EMPTY}, underscore={UNDER}, nolist={NOLIST}, inlist={INLIST}: answered public={rv}"
+            break
+    ctx.ob("L6", pubf, "a field is hidden only when its name is empty, starts with `_`, or is in the exclusion list", ok, det, inst="is_public_field")
     # Roland SampleEntry / SampleFile constructor names
     for path, qn, clsname in ((RO + "sample_entry.py", "SampleEntryAdapter._decode_element", "SampleEntry"), (RO + "sample_file.py", "SampleFileAdapter._decode_element", "SampleFile")):
         fn = ctx.fn(path, qn, "L6")
